@@ -36,6 +36,39 @@ pub fn dispatch(p: &[String]) -> String {
             generated::from_str(&p[1], &String::from_utf8_lossy(&bytes))
         }
         "from_bits" => generated::from_bits(&p[1], p[2].parse::<u32>().unwrap()),
+        "lookup" => {
+            use rspirv::grammar as g;
+            let n = p[2].parse::<u32>().unwrap();
+            fn ops_json(ops: &[g::LogicalOperand]) -> String {
+                let v: Vec<String> = ops.iter().map(|o| format!("[\"{:?}\", \"{:?}\"]", o.kind, o.quantifier)).collect();
+                format!("[{}]", v.join(", "))
+            }
+            match p[1].as_str() {
+                "core" => match g::CoreInstructionTable::lookup_opcode(n as u16) {
+                    Some(e) => format!("{{\"found\": true, \"opname\": {}, \"opcode\": {}, \"operands\": {}}}", jstr(e.opname), e.opcode as u32, ops_json(e.operands)),
+                    None => "{\"found\": false}".to_string(),
+                },
+                "glsl" => match g::GlslStd450InstructionTable::lookup_opcode(n) {
+                    Some(e) => format!("{{\"found\": true, \"opname\": {}, \"opcode\": {}, \"operands\": {}}}", jstr(e.opname), e.opcode, ops_json(e.operands)),
+                    None => "{\"found\": false}".to_string(),
+                },
+                "opencl" => match g::OpenCLStd100InstructionTable::lookup_opcode(n) {
+                    Some(e) => format!("{{\"found\": true, \"opname\": {}, \"opcode\": {}, \"operands\": {}}}", jstr(e.opname), e.opcode, ops_json(e.operands)),
+                    None => "{\"found\": false}".to_string(),
+                },
+                _ => "{\"error\": \"unknown table\"}".to_string(),
+            }
+        }
+        "get" => {
+            use rspirv::grammar as g;
+            let n = p[2].parse::<u32>().unwrap();
+            match p[1].as_str() {
+                "core" => match spirv::Op::from_u32(n) { Some(o) => format!("{{\"opcode\": {}}}", g::CoreInstructionTable::get(o).opcode as u32), None => "{\"error\": \"undeclared\"}".to_string() },
+                "glsl" => match spirv::GLOp::from_u32(n) { Some(o) => format!("{{\"opcode\": {}}}", g::GlslStd450InstructionTable::get(o).opcode), None => "{\"error\": \"undeclared\"}".to_string() },
+                "opencl" => match spirv::CLOp::from_u32(n) { Some(o) => format!("{{\"opcode\": {}}}", g::OpenCLStd100InstructionTable::get(o).opcode), None => "{\"error\": \"undeclared\"}".to_string() },
+                _ => "{\"error\": \"unknown table\"}".to_string(),
+            }
+        }
         "reflect" => {
             use rspirv::grammar::reflect as r;
             let n = p[2].parse::<u32>().unwrap();
